@@ -513,6 +513,38 @@ func runC09Distance(c *Ctx) {
 						}
 					}
 				}
+				// the pruning envelope kept in a variable shared by the searches (captured by the
+				// closures): it must be set, for this search, to the envelope of this search's item
+				if bad == "" && boxCall != nil && len(boxCall.Call.Args) == 1 {
+					recv := resolveCell(boxCall.Call.Args[0])
+					for _, al := range sharedPruningEnvelopes(h) {
+						okStore := false
+						var loop map[*ssa.BasicBlock]bool
+						for _, hb := range h.Blocks {
+							if l := naturalLoop(hb); l != nil && l[ps.Block()] && (loop == nil || len(l) < len(loop)) {
+								loop = l
+							}
+						}
+						for _, r := range *al.Referrers() {
+							st, isSt := r.(*ssa.Store)
+							if !isSt || st.Addr != ssa.Value(al) || !st.Block().Dominates(ps.Block()) || (loop != nil && !loop[st.Block()]) {
+								continue
+							}
+							if ec, isCall := st.Val.(*ssa.Call); isCall && len(ec.Call.Args) == 1 {
+								if cal := staticCallee(ec); cal != nil && (cal.Name() == "uncheckedEnvelope" || cal.Name() == "Envelope") {
+									er := resolveCell(ec.Call.Args[0])
+									if er == recv || sameValue(er, recv) {
+										okStore = true
+									}
+								}
+							}
+						}
+						if !okStore {
+							rs, _ := accessPath(recv)
+							bad = "the pruning test reads the shared variable " + al.Comment + ", which is not set to the envelope of " + trunc(rs) + " before this search (it still holds the envelope of an item of an earlier search)"
+						}
+					}
+				}
 				c.Check(bad == "", ps.Pos(), FuncName(h), "origin of the tree search", "the box of the item whose envelope the pruning test uses", bad+": records are then visited in an order that is not the order of the bound the early stop relies on, and a nearer record can be skipped")
 			}
 		}
@@ -571,6 +603,47 @@ func runC09Distance(c *Ctx) {
 	if mins < 1 {
 		c.Errorf("found %d updates of the running minimum, expected at least 1", mins)
 	}
+}
+
+// sharedPruningEnvelopes: Envelope variables of h that its closures read as the
+// argument of Envelope.Distance (the lower bound the early stop compares).
+func sharedPruningEnvelopes(h *ssa.Function) []*ssa.Alloc {
+	var out []*ssa.Alloc
+	for _, g := range allAnon(h) {
+		mc, ok := makeClosureOf(g).(*ssa.MakeClosure)
+		if !ok || mc == nil {
+			continue
+		}
+		eachCall(g, func(ci ssa.CallInstruction) {
+			if calleeName(ci) != "geom.(Envelope).Distance" || len(ci.Common().Args) != 2 {
+				return
+			}
+			ld, ok := ci.Common().Args[1].(*ssa.UnOp)
+			if !ok || ld.Op != token.MUL {
+				return
+			}
+			fv, ok := ld.X.(*ssa.FreeVar)
+			if !ok {
+				return
+			}
+			for i, b := range mc.Bindings {
+				if i < len(g.FreeVars) && g.FreeVars[i] == fv {
+					if al, ok := b.(*ssa.Alloc); ok && al.Parent() == h {
+						dup := false
+						for _, o := range out {
+							if o == al {
+								dup = true
+							}
+						}
+						if !dup {
+							out = append(out, al)
+						}
+					}
+				}
+			}
+		})
+	}
+	return out
 }
 
 func uniqueStoreValue(al *ssa.Alloc) ssa.Value {
@@ -638,6 +711,19 @@ func runC19Conic(c *Ctx) {
 				pos = call.Pos()
 			}
 		})
+		// the radius of a conic carries the sign of the cone constant (the sibling rule: all
+		// three conics write rho = sign(n) * …, and theta = atan(x/(rho0-y)) relies on it)
+		signed := false
+		eachCallWithNewHelpers(f, func(call ssa.CallInstruction) {
+			if calleeName(call) == "carto.sign" {
+				signed = true
+			}
+		})
+		if p.named.Obj().Name() == "AlbersEqualAreaConic" {
+			// reviewed: the equal-area conic uses rho only squared (phi = asin((C - (rho*n/R)^2)/(2n))), its sign is immaterial
+			signed = true
+		}
+		c.Check(signed, f.Pos(), FuncName(f), "signed radius in a conic", "rho = sign(n) * distance from the apex", "this conic's Reverse no longer multiplies the radius by sign(n) while its siblings do: for a negative cone constant (southern standard parallels) the latitude recovered from rho is NaN or mirrored")
 		c.Check(usesAtanQuot && !usesAtan2, firstValid(pos, f.Pos()), FuncName(f), "theta recovery in a conic", "atan(x/(rho0-y)), consistent with rho carrying sign(n) in all conic siblings", "this conic recovers theta with atan2 while its siblings use atan(x/(rho0-y)) with a signed rho: for a negative cone constant (southern standard parallels) rho0-y is negative and atan2 is off by 180 degrees, i.e. the longitude by 180/|n|")
 	}
 	if n < 3 {
